@@ -360,7 +360,22 @@ func ipv6PlaceAnalysis(c *Ctx) *aiOutcome {
 					}
 					ai.hook = func(cl *ssa.Function, args []aiVal) (aiVal, bool) {
 						if h := m.Handlers[cl]; h != nil {
-							if h.FailIdx < len(args) && args[h.FailIdx].k == aiBool {
+							if h.FailIdx < 0 && h.FailConst {
+								// a wrapper for failures only; its answer may stand beside zero values
+								if h.ErrResult == 0 && cl.Signature.Results().Len() == 1 {
+									return aiVal{k: aiErr, b: true}, true
+								}
+								tup := aiVal{k: aiTuple}
+								for i := 0; i < cl.Signature.Results().Len(); i++ {
+									if i == h.ErrResult {
+										tup.tup = append(tup.tup, aiVal{k: aiErr, b: true})
+									} else {
+										tup.tup = append(tup.tup, aiVal{k: aiStr, s: ""})
+									}
+								}
+								return tup, true
+							}
+							if h.FailIdx >= 0 && h.FailIdx < len(args) && args[h.FailIdx].k == aiBool {
 								if args[h.FailIdx].b {
 									return aiVal{k: aiErr, b: true}, true
 								}
